@@ -2,6 +2,7 @@ CONSTANTS
   Model = "geo"
   MaxSteps = 4
   Hist = FALSE
+  AllowDie = FALSE
   TransOnlyAsserted = FALSE
   TransOutOnly = FALSE
   NoInverseOfInferred = FALSE
